@@ -34,12 +34,16 @@ Base == << BEntry("X", K0, 0, 1, TRUE, FALSE), BEntry("S", K0, 0, 1, FALSE, FALS
            BEntry("A1", K0, 0, 1, FALSE, TRUE), BEntry("A2", K0, 0, 2, FALSE, TRUE), BEntry("H", K0, 0, 1, TRUE, FALSE),
            BEntry("GPi", <<1, 0, 0>>, 1, 1, TRUE, FALSE), BEntry("XX", <<1, 0, 0>>, 1, 2, FALSE, FALSE),
            BEntry("I", K0, 0, 1, TRUE, FALSE),
-           BEntry("XY", <<1, 0, 0>>, 1, 2, FALSE, FALSE), BEntry("CPHASE", <<1, 0, 0>>, 1, 2, FALSE, FALSE), BEntry("YY", <<1, 0, 0>>, 1, 2, FALSE, FALSE) >>   \* complex-symmetric but NOT hermitian
-BaseMat(g) == IF Base[g].custom THEN (IF Base[g].name = "A1" THEN A1 ELSE A2) ELSE GateAt(Base[g].name, Base[g].k)
+           BEntry("XY", <<1, 0, 0>>, 1, 2, FALSE, FALSE), BEntry("CPHASE", <<1, 0, 0>>, 1, 2, FALSE, FALSE), BEntry("YY", <<1, 0, 0>>, 1, 2, FALSE, FALSE),     \* complex-symmetric but NOT hermitian
+           BEntry("MS", <<1, 0, 0>>, 2, 2, FALSE, FALSE),    \* two parameters, degenerate spectrum
+           \* a PARAMETRIC custom gate P(a) = diag(1, e^{ia}) instantiated where it happens to be self-adjoint (a = 0): the flag of
+           \* a gate family must not be decided by the value of one instance
+           BEntry("PC", K0, 1, 1, FALSE, TRUE) >>
+BaseMat(g) == IF Base[g].custom THEN (IF Base[g].name = "A1" THEN A1 ELSE IF Base[g].name = "A2" THEN A2 ELSE GateAt("PHASE", Base[g].k)) ELSE GateAt(Base[g].name, Base[g].k)
 GMTab == TLCEval([g \in 1..Len(Base) |-> BaseMat(g)])
 \* replacing the parameters: the same gate at other grid angles (k2)
 AltK(g) == IF Base[g].np = 0 THEN K0 ELSE IF Base[g].np = 3 THEN <<3, 2, 1>> ELSE <<3, 0, 0>>
-GMAlt == TLCEval([g \in 1..Len(Base) |-> IF Base[g].custom \/ Base[g].np = 0 THEN BaseMat(g) ELSE GateAt(Base[g].name, AltK(g))])
+GMAlt == TLCEval([g \in 1..Len(Base) |-> IF Base[g].np = 0 THEN BaseMat(g) ELSE GateAt(IF Base[g].custom THEN "PHASE" ELSE Base[g].name, AltK(g))])
 
 One == <<1, 1>>
 Leaf(g, alt) == [k |-> "base", g |-> g, n |-> IF alt THEN 1 ELSE 0, e |-> One, a |-> <<>>]     \* n = 1 marks "built with the new parameters"
